@@ -13,7 +13,11 @@ this view by the check and compared cell by cell.
 * FeatureCover   -> predicate "n rows per group, rows of that group, hidden
                     column removed"
 * resampling     -> predicates on the resampled window and on the probability
-                    vector that was handed to the random generator
+                    vector that was handed to the random generator (requested
+                    mass per listed class, uniform share for un-listed classes
+                    of the window, and the documented redistribution of the
+                    probability of listed classes that are missing from the
+                    window — ``absent_rule_masses``)
 """
 import math
 from fractions import Fraction
@@ -242,6 +246,37 @@ def check_resampled_rows(rows, out_rows, f, t):
     return None
 
 
+def absent_rule_masses(wcls, sizes, request, tol=1e-9):
+    """Class masses the documentation asks for when a listed class does not occur in the window.
+
+    Docstring of LabelProbabilityInjector: "When a class is not present in the window specified, but specified in
+    class_probabilities, the probability value is uniformly divided into the remaining classes in the window."
+    Base mass of a class of the window: its requested probability when listed, otherwise the uniform share of
+    1 - sum(request) among the un-listed classes of the window.  The probability L of the absent listed classes is
+    then spread "uniformly"; the sentence can be read as an equal share per class (L / number of classes in the
+    window) or as an equal share per row (L * class size / window size — what the pinned implementation and the
+    comment in test_probability_shift_2 "individual = class prob / class size, + leftover prob" do).  Both readings
+    coincide when all classes of the window have the same size; a weight vector is accepted when it follows either.
+    -> (masses per class reading, masses per row reading, L), aligned with ``wcls``."""
+    listed = [k for k, _ in request]
+    total = math.fsum(v for _, v in request)
+    unlisted = [w for w in wcls if not any(same_cell(w, k) for k in listed)]
+    base = []
+    for w in wcls:
+        q = None
+        for k, v in request:
+            if same_cell(k, w):
+                q = v
+        if q is None:
+            q = max(0.0, 1.0 - total) / len(unlisted)
+        base.append(q)
+    absent_mass = math.fsum(v for k, v in request if not any(same_cell(k, w) for w in wcls))
+    width = sum(sizes)
+    per_class = [q + absent_mass / len(wcls) for q in base]
+    per_row = [q + absent_mass * m / width for q, m in zip(base, sizes)]
+    return per_class, per_row, absent_mass
+
+
 def check_probability_vector(rows, f, t, c, request, a, p, tol=1e-9):
     """``a``: row positions offered to the generator, ``p``: their weights,
     ``request``: [(class, probability)] as asked by the caller.
@@ -251,8 +286,13 @@ def check_probability_vector(rows, f, t, c, request, a, p, tol=1e-9):
     (it sums to 1 or an unlisted class occurs in the window): class c gets mass
     p_c.  If moreover every class of the column occurs in the window: the
     unlisted classes share the rest uniformly (the documented rule).
+    If a listed class does NOT occur in the window (and the request is otherwise
+    satisfiable): the documented rule "the probability value is uniformly
+    divided into the remaining classes in the window" — see
+    ``absent_rule_masses`` for the two readings of "uniformly" that are accepted.
     Returns (error or None, info dict)."""
-    info = {"listed_absent": False, "satisfiable": False, "all_in_window": False}
+    info = {"listed_absent": False, "satisfiable": False, "all_in_window": False,
+            "absent_rule": False, "absent_rule_readings_differ": False, "absent_mass": 0.0}
     if p is None:
         return "no probability vector was handed to the random generator", info
     if len(a) != len(p):
@@ -278,6 +318,24 @@ def check_probability_vector(rows, f, t, c, request, a, p, tol=1e-9):
         return math.fsum(w for i, w in zip(a, p) if same_cell(rows[i][c], k))
 
     if not all(present):
+        if not (abs(total - 1.0) <= tol or unlisted_in_window):
+            return None, info  # nothing is documented for a request that cannot be met anyway
+        sizes = [sum(1 for i in range(f, t) if same_cell(rows[i][c], w)) for w in wcls]
+        per_class, per_row, absent_mass = absent_rule_masses(wcls, sizes, request, tol)
+        got = [mass(w) for w in wcls]
+        info["absent_rule"] = True
+        info["absent_mass"] = absent_mass
+        info["absent_rule_readings_differ"] = any(abs(x - y) > tol for x, y in zip(per_class, per_row))
+        ok_class = all(abs(g - e) <= tol for g, e in zip(got, per_class))
+        ok_row = all(abs(g - e) <= tol for g, e in zip(got, per_row))
+        if not (ok_class or ok_row):
+            return (
+                "listed class(es) %r do not occur in the window, their probability %r is to be divided uniformly "
+                "among the classes of the window %r: expected class masses %r (equal share per class) or %r (equal "
+                "share per row), the weights handed to the generator give %r (candidates %r, weights %r)"
+                % ([k for k, pr in zip(listed, present) if not pr], absent_mass, wcls, per_class, per_row, got, a, p),
+                info,
+            )
         return None, info
     if not (abs(total - 1.0) <= tol or unlisted_in_window):
         return None, info
